@@ -36,6 +36,11 @@ class PoolProp(Prop):
                "atomic operations; a process as a thread; single attribute loads/stores atomic (GIL)",
                "reduction: thread-local computation between two visible operations is not interleaved"]
 
+    assumptions = ["manager queue, lock and event operations are atomic and queues are FIFO",
+                   "a single load or store of pool._sending_work / pool._data_cnt is atomic (CPython GIL); the feeder is the only writer of _data_cnt during a call",
+                   "a worker process behaves, for the pool's bookkeeping, like a thread that shares nothing but the queues and events (no pickling faults)",
+                   "functors return normally unless the case injects a fault (C04 only)"]
+
     # ------------------------------------------------------------------ generation
     def gen_cfg(self, rng):
         factory = rng.random() < (0.7 if self.focus in ("C03", "C04") else 0.4)
@@ -56,6 +61,13 @@ class PoolProp(Prop):
             cfg[0], cfg[2] = rng.randint(2, 3), rng.choice([1, 2])
             hist = [[0, 1, [rng.randint(0, 9) for _ in range(rng.randint(5, 10))], rng.choice([1, 1, 2])]]
             return dict(cfg=cfg, hist=hist, seed=rng.randrange(1 << 30), policy=rng.choice(["last:w0", "last:w1", "random", "last:w"]))
+        if self.focus == "C04" and rng.random() < 0.2:
+            # until_all_ready after workers have been replaced: the new workers' begin() must be waited for as well
+            cfg = [rng.randint(1, 3), rng.choice([None, ["f", 10]]), rng.choice([None, 2]), 1, rng.choice([1, 1, 2])]
+            hist = [[1], [0, rng.randint(0, 1), [rng.randint(0, 9) for _ in range(rng.randint(2, 5))], 1], [1]]
+            if rng.random() < 0.4:
+                hist.append(self.gen_call(rng, 3))
+            return dict(cfg=cfg, hist=hist, seed=rng.randrange(1 << 30), policy=rng.choice(["first:main", "first:main", "last:w", "random"]))
         if self.focus in ("C01", "C02"):
             hist = [self.gen_call(rng)]
         else:
